@@ -444,6 +444,12 @@ func runC11(c runner.Case, env *runner.Env) (res runner.Result) {
 					}
 					if r.Chance(1, 3) {
 						kv.Flags = 1
+						if r.Chance(1, 3) {
+							// a native peer may leave bytes behind a deleted-flag header: still a deletion, the
+							// bytes must never reach the application's DBI (seed C04j)
+							kv.Val = []byte("leftover-behind-a-marker")
+							res.Count("remote_markers_with_leftover_value", 1)
+						}
 					} else {
 						kv.Val = []byte(c11Val(r, false) + "-remote")
 					}
